@@ -11,6 +11,7 @@ import (
 	abci "github.com/cometbft/cometbft/abci/types"
 	sdk "github.com/cosmos/cosmos-sdk/types"
 	banktypes "github.com/cosmos/cosmos-sdk/x/bank/types"
+	govv1 "github.com/cosmos/cosmos-sdk/x/gov/types/v1"
 	stakingtypes "github.com/cosmos/cosmos-sdk/x/staking/types"
 	gogoproto "github.com/cosmos/gogoproto/proto"
 	ethcommon "github.com/ethereum/go-ethereum/common"
@@ -96,6 +97,14 @@ func (s *Script) Setup() {
 	// it no delivery proof can be attested
 	must(w.GovExec(ctx, &evmtypes.MsgDeployNewSmartContractProposalV2{Authority: w.Gov, AbiJSON: world.CompassABI(), BytecodeHex: "0x6080",
 		Metadata: vtypes.MsgMetadata{Creator: w.Gov, Signers: []string{w.Gov}}}))
+	// governance that can decide within the history: half-minute periods, deposits in the bond denom
+	gp, err := w.App.GovKeeper.Params.Get(ctx)
+	must(err)
+	half, tenth := 30*time.Second, 10*time.Second
+	gp.VotingPeriod, gp.MaxDepositPeriod, gp.ExpeditedVotingPeriod = &half, &half, &tenth
+	gp.MinDeposit = sdk.NewCoins(sdk.NewInt64Coin(world.BondDenom, 1000))
+	gp.ExpeditedMinDeposit = sdk.NewCoins(sdk.NewInt64Coin(world.BondDenom, 5000))
+	must(w.App.GovKeeper.Params.Set(ctx, gp))
 	d, err := w.BridgeToken(ctx, w.User("adm"), "t1", Ref, Erc20, 100000, w.User("U1"), w.User("U2"))
 	must(err)
 	s.denom = d
@@ -224,6 +233,17 @@ func (s *Script) TxsFor(i int, rctx sdk.Context) []Tx {
 		// a stake change that reorders the validators: the snapshot built at height 50 is "worthy"
 		// and goes through the publish-to-chains decision (keep-warm rule)
 		add(u1, stakingtypes.NewMsgDelegate(u1.Addr.String(), w.Vals[3].ValAddr.String(), sdk.NewInt64Coin(world.BondDenom, 700_000)))
+	case 180:
+		// a bridge contract upgrade decided by governance: proposal, votes, execution by the gov
+		// end-blocker, deployment on the chain that has a fee manager, handover
+		prop, err := govv1.NewMsgSubmitProposal([]sdk.Msg{&evmtypes.MsgDeployNewSmartContractProposalV2{Authority: w.Gov, AbiJSON: world.CompassABI(), BytecodeHex: "0x608060",
+			Metadata: vtypes.MsgMetadata{Creator: w.Gov, Signers: []string{w.Gov}}}}, sdk.NewCoins(sdk.NewInt64Coin(world.BondDenom, 1000)), u1.Addr.String(), "", "compass v2", "upgrade the bridge contract", false)
+		must(err)
+		add(u1, prop)
+	case 181:
+		for _, v := range w.Vals {
+			add(v.Actor, govv1.NewMsgVote(v.Addr, 1, govv1.OptionYes, ""))
+		}
 	case 100:
 		add(u1, &evmtypes.MsgRemoveUserSmartContractRequest{Metadata: world.Meta(u1), Id: 1})
 	case 120:
